@@ -29,7 +29,7 @@ EXPLANATION = ("Lean theorems about the whole exit-code chain (CppCheckLogger::r
                "fail-closed extraction of the chain's statements + CLI correspondence. The per-file analysis and the matching of a "
                "suppression against a finding are parameters (reference runs / real SuppressionList answers).")
 THEOREMS = ["Cppcheck.ExitCode.exit_iff_patched", "Cppcheck.ExitCode.exit_iff_any_schedule", "Cppcheck.ExitCode.exit_iff_partial",
-            "Cppcheck.ExitCode.exit_else_zero",
+            "Cppcheck.ExitCode.stage_one_errors_flag_irrelevant", "Cppcheck.ExitCode.exit_else_zero",
             "Cppcheck.ExitCode.exit_zero_when_errorExitCode_zero", "Cppcheck.ExitCode.invalid_cmdline_is_1",
             "Cppcheck.ExitCode.safety_critical_is_1", "Cppcheck.ExitCode.lost_pipe_fails",
             "Cppcheck.ExitCode.unmatched_ignores_nofail_counterexample", "Cppcheck.ExitCode.check_config_counterexample",
@@ -38,6 +38,13 @@ MODULES = ["Cppcheck.Props.C25"]
 
 TEMPLATE = "--template={id}|{file}|{line}|{column}|{severity}|{message}"
 WPIDS = {"unusedFunction", "staticFunction"}
+
+
+def is_wp_id(i):
+    """ids raised by the whole-program stages (CheckUnusedFunctions, CTU checks), never by a file's own logger"""
+    return i in WPIDS or i.startswith("ctu")
+
+
 KEY_F9 = "unmatched-ignores-exitcode-suppressions"
 KEY_CC = "check-config-exit-code"
 PATCHED = dict(unmatchedNofail=True, checkConfigLogger=True)     # the main model: Cppcheck.ExitCode.patched
@@ -485,6 +492,46 @@ def gen_case(rng, proj, pool, thorough):
     return case
 
 
+def gen_wp_project(rng, k):
+    """projects whose ONLY findings come from the whole-program stages: staticFunction (a non-static function used only in its own
+    translation unit), unusedFunction, a CTU finding across two files (one definition rule) and a CTU finding inside one file"""
+    # the first four projects of a run carry exactly one kind each (a run whose ONLY finding is that one), later ones mix
+    kinds = [["static"], ["unused"], ["odr"], ["ctu1"]][k] if k < 4 else rng.sample(["static", "unused", "odr", "ctu1"], 2)
+    files, order = {}, []
+    files["w%d_clean.c" % k] = "int main(void)\n{\n    return wuse%d();\n}\n" % k if False else "int wclean%d;\n" % k
+    order.append("w%d_clean.c" % k)
+    nomsg = []
+    for kd in kinds:
+        if kd == "static":
+            n = "w%d_static.c" % k
+            files[n] = "int whelper%d(int x)\n{\n    return x + 1;\n}\n\nint main(void)\n{\n    return whelper%d(1);\n}\n" % (k, k)
+            order.append(n)
+        elif kd == "unused":
+            n = "w%d_unused.c" % k
+            files[n] = "int wnever%d(int x)\n{\n    return x + 1;\n}\n" % k
+            order.append(n)
+        elif kd == "odr":
+            files["w%d_o1.cpp" % k] = "struct WS%d { int a; };\nint wo1_%d;\n" % (k, k)
+            files["w%d_o2.cpp" % k] = "struct WS%d { char b; long c; };\nint wo2_%d;\n" % (k, k)
+            order += ["w%d_o1.cpp" % k, "w%d_o2.cpp" % k]
+        else:
+            n = "w%d_ctu.c" % k
+            files[n] = "static void wf%d(int *p) { *p = 3; }\nvoid wg%d(void) {\n    int *p = 0;\n    wf%d(p);\n}\n" % (k, k, k)
+            order.append(n)
+            nomsg = ["nullPointer"]
+    if rng.random() < 0.4:
+        rng.shuffle(order)
+    enable = "unusedFunction" if ("static" in kinds or "unused" in kinds) else rng.choice(["", "unusedFunction"])
+    return dict(files=files, order=order, enable=enable, name="w%d" % k, kinds=kinds, nomsg=nomsg)
+
+
+def gen_wp_case(rng, proj, raw_ids):
+    nofail = rng.choice([[], [], [], [rng.choice(raw_ids)] if raw_ids else [], ["*"], [x for x in raw_ids]])
+    return dict(order=list(proj["order"]), nomsg=list(proj["nomsg"]), nofail=list(dict.fromkeys(nofail)), code=rng.choice([7, 7, 3, 255]),
+                executor=rng.choice(["single", "single", "single", "thread", "process"]), bd=rng.choice(["none", "none", "fresh", "warm"]),
+                safety=False, checkcfg=False, emitdup=rng.random() < 0.1, project=False)
+
+
 # ---- evaluation of one case ----------------------------------------------------------------------------------
 class Evaluator:
     def __init__(self, ctx, res, runner, harness, drv, variant):
@@ -502,14 +549,18 @@ class Evaluator:
         if k not in self.refs:
             case = dict(executor="single", order=[name], checkcfg=checkcfg)
             rc, out, err = self.runner.run(pdir, base_args(case, proj, None) + ["--emit-duplicates"])
-            self.refs[k] = [f for f in parse_lines(err) if f["id"] not in WPIDS and f["id"] != "checkersReport"]
+            self.refs[k] = [f for f in parse_lines(err) if not is_wp_id(f["id"]) and f["id"] != "checkersReport"]
         return self.refs[k]
 
     def base(self, pdir, proj, case, bd):
         """all messages of the base configuration (multiset), from a run with --emit-duplicates and no suppressions"""
-        k = ("base", pdir, tuple(case["order"]), case["executor"], case["bd"] != "none", bool(case.get("checkcfg")), bool(case.get("project")))
+        # fresh and warm build dirs are different base configurations: on a warm cache the files are not analysed again, the
+        # in-memory whole-program stage has no file infos and only the build-dir stage raises the CTU findings
+        k = ("base", pdir, tuple(case["order"]), case["executor"], case["bd"], bool(case.get("checkcfg")), bool(case.get("project")))
         if k not in self.refs:
             bd2 = self.runner.new_bd(pdir) if case["bd"] != "none" else None
+            if case["bd"] == "warm":
+                self.runner.run(pdir, base_args(case, proj, bd2) + ["--emit-duplicates"])
             rc, out, err = self.runner.run(pdir, base_args(case, proj, bd2) + ["--emit-duplicates"])
             self.refs[k] = [f for f in parse_lines(err) if f["id"] != "checkersReport"]
         return self.refs[k]
@@ -619,7 +670,8 @@ class Evaluator:
         def model_line(v):
             toks = ["run", "1" if v["unmatchedNofail"] else "0", "1" if v["checkConfigLogger"] else "0", str(case["code"]),
                     "1" if case.get("safety") else "0", "1" if checkcfg else "0", "1" if case.get("emitdup") else "0", str(exn),
-                    "1" if case.get("project") else "0", "1" if wp1 else "0", "1" if um else "0", str(lost), "files", str(len(files_enc))]
+                    "1" if case.get("project") else "0", "1" if any(f["id"] != "staticFunction" for f in wp1) else "0", "1" if um else "0",
+                    str(lost), "files", str(len(files_enc))]
             for fe in files_enc:
                 toks += [str(len(fe))] + fe
             toks += ["wp1", str(len(wp1_enc))] + wp1_enc + ["wp2", str(len(wp2_enc))] + wp2_enc + ["um", str(len(um_enc))] + um_enc
@@ -781,6 +833,25 @@ def run(ctx, res):
             case = dict(order=list(proj["order"]), nomsg=[], nofail=[], code=7, executor="single", bd="none", extra=extra)
             r = run_one(ev, res, pdir, proj, case, "invalid", v)
             handle(r, pdir, proj, "invalid")
+    # ---- runs whose only findings come from the whole-program stages
+    for k in range(8 if thorough else 4):
+        proj = gen_wp_project(rng, k)
+        pdir = os.path.join(ctx.tmp, proj["name"])
+        write_project(pdir, proj)
+        base = ev.base(pdir, proj, dict(order=proj["order"], executor="single", bd="none", nomsg=[]), None)
+        raw_ids = sorted(set(f["id"] for f in base))
+        fixed = [dict(executor="single", bd="none", nofail=[]), dict(executor="single", bd="none", nofail=list(raw_ids)),
+                 dict(executor="single", bd="fresh", nofail=[]), dict(executor="thread", bd="fresh", nofail=[]),
+                 dict(executor="process", bd="none", nofail=[])]
+        for j in range(24 if thorough else 8):
+            case = gen_wp_case(rng, proj, raw_ids)
+            if j < len(fixed):
+                case.update(fixed[j], emitdup=False)
+            r = run_one(ev, res, pdir, proj, case, "%s-%d" % (proj["name"], j), v, sample=(j == 0))
+            res.count("wp-only:" + "+".join(sorted(proj["kinds"])))
+            if r["kind"] == "run" and r["nprinted"]:
+                res.count("wp-only:finding-printed")
+            handle(r, pdir, proj, "%s-%d" % (proj["name"], j))
     res.extra["cli_runs"] = runner.n
     res.traces_validated += res.evaluations - len(mism)
     first = ""
